@@ -7,8 +7,8 @@ CONSTANTS
   TokenPerCall = FALSE
   TokenForFailed = FALSE
   UdsKeepsToken = FALSE
-  ServeWhilePending = TRUE
-  StopServesQueued = FALSE
+  ServeWhilePending = FALSE
+  StopServesQueued = TRUE
 SPECIFICATION Spec
-INVARIANTS B_TokensArePositions C01_OwnListenersService C07_NoCallWhilePending C07_WaitsThenServed B_NoPanic B_SvcOwner
+INVARIANTS C01_QueuedReleasedAtStop
 CHECK_DEADLOCK FALSE
